@@ -469,6 +469,7 @@ func (la *lockAnalysis) ruleNoReacquire(r *Rep, rule string) {
 			if g == nil || cc.IsInvoke() {
 				return
 			}
+			la.reacquireThroughPath(r, rule, f, ins, cc, st)
 			for gi, ms := range la.acq[g] {
 				if gi >= len(cc.Args) {
 					continue
